@@ -255,6 +255,32 @@ Definition oracle_sound (inv : nat -> M -> option M) : Prop :=
 Lemma schur_compat n m U Q Q' Sf : meq n m Q Q' -> meq m m (schur n U Q Sf) (schur n U Q' Sf).
 Proof. intros HQ. unfold schur. apply msub_compat; [reflexivity|]. apply mmul_compat_r; exact HQ. Qed.
 
+Lemma fant_mean_cache_staged_eq n m U Q Cinv alpha rf :
+  meq (n + m) 1 (fant_mean_cache_staged n m U Q Cinv alpha rf) (fant_mean_cache n m U Q Cinv alpha rf).
+Proof.
+  unfold fant_mean_cache_staged, fant_mean_cache, fant_upper. apply vstack_compat.
+  - apply msub_compat; [reflexivity|]. apply mmul_compat_r. apply mat_meq.
+  - apply mat_meq.
+Qed.
+
+Lemma bordered_inv_staged_eq n m Ainv U Ut Q P Cinv :
+  meq n m Q (mmul n Ainv Ut) -> meq m n P (mmul n U Ainv) ->
+  meq (n + m) (n + m) (bordered_inv_staged n m Ainv Q P Cinv) (bordered_inv n m Ainv U Ut Cinv).
+Proof.
+  intros HQ HP. unfold bordered_inv_staged, bordered_inv. apply blk_compat.
+  - apply madd_compat; [reflexivity|]. apply mmul_compat; [exact HQ|].
+    etransitivity; [apply mat_meq|]. apply mmul_compat_r. exact HP.
+  - apply mopp_compat. etransitivity; [apply mat_meq|]. apply mmul_compat_l. exact HQ.
+  - apply mopp_compat. etransitivity; [apply mat_meq|]. apply mmul_compat_r. exact HP.
+  - reflexivity.
+Qed.
+
+Lemma post_cov_staged_eq n t KJ Ainv : meq t t (post_cov_staged n t KJ Ainv) (post_cov n KJ Ainv).
+Proof.
+  unfold post_cov_staged, post_cov. apply msub_compat; [reflexivity|].
+  apply mmul_compat_r. apply mat_meq.
+Qed.
+
 Lemma fantasy_step_inv inv KJ S r st m st' :
   oracle_sound inv -> finv KJ S r st -> fantasy_step inv KJ S r st m = Some st' ->
   finv KJ S r st' /\ fst (fst st') = (fst (fst st) + m)%nat.
@@ -262,26 +288,41 @@ Proof.
   intros Hor Hinv Hstep. destruct st as [[n Ainv] alpha]. destruct Hinv as [HA Hal].
   unfold fantasy_step in Hstep.
   set (A := train_covar KJ S) in *.
-  set (U := sub n 0 A) in *. set (Ut := sub 0 n A) in *. set (Sf := sub n n A) in *.
-  set (Qm := mat n m (fant_solve n Ainv Ut)) in *.
-  destruct (inv m (mat m m (schur n U Qm Sf))) as [Cinv|] eqn:Hi; [|discriminate].
+  set (Um := mat m n (sub n 0 A)) in *. set (Utm := mat n m (sub 0 n A)) in *.
+  set (U := sub n 0 A). set (Ut := sub 0 n A). set (Sf := sub n n A) in *.
+  set (Qm := mat n m (fant_solve n Ainv Utm)) in *.
+  set (Pm := mat m n (mmul n Um Ainv)) in *.
+  destruct (inv m (mat m m (schur n Um Qm Sf))) as [Cinv|] eqn:Hi; [|discriminate].
   injection Hstep as <-. cbn [fst]. split; [|reflexivity].
   apply Hor in Hi.
-  assert (HQm : meq n m Qm (fant_solve n Ainv Ut)) by apply mat_meq.
+  assert (HU : meq m n Um U) by apply mat_meq.
+  assert (HUt : meq n m Utm Ut) by apply mat_meq.
+  assert (HQm : meq n m Qm (fant_solve n Ainv Ut)).
+  { unfold Qm. etransitivity; [apply mat_meq|]. unfold fant_solve. apply mmul_compat_r. exact HUt. }
+  assert (HPm : meq m n Pm (mmul n U Ainv)).
+  { unfold Pm. etransitivity; [apply mat_meq|]. apply mmul_compat_l. exact HU. }
   assert (HCm : is_inverse m (schur n U Qm Sf) Cinv).
-  { eapply is_inverse_compat; [apply mat_meq|reflexivity|exact Hi]. }
+  { eapply is_inverse_compat; [|reflexivity|exact Hi].
+    etransitivity; [apply mat_meq|]. unfold schur. apply msub_compat; [reflexivity|].
+    apply mmul_compat_l. exact HU. }
   assert (HC : is_inverse m (schur n U (fant_solve n Ainv Ut) Sf) Cinv).
   { eapply is_inverse_compat; [apply schur_compat; exact HQm|reflexivity|exact HCm]. }
   assert (HAblk : meq (n + m) (n + m) (bordered n (sub 0 0 A) Ut U Sf) A).
   { symmetry. apply blk_of_subs. }
-  assert (HB : is_inverse (n + m) A (mat (n + m) (n + m) (bordered_inv n m Ainv U Ut Cinv))).
-  { eapply is_inverse_compat; [exact HAblk|symmetry; apply mat_meq|].
-    apply bordered_inv_correct; [exact HA|exact HC]. }
+  assert (HB : is_inverse (n + m) A (mat (n + m) (n + m) (bordered_inv_staged n m Ainv Qm Pm Cinv))).
+  { eapply is_inverse_compat; [exact HAblk| |apply (bordered_inv_correct n m _ Ainv U Ut Sf Cinv HA HC)].
+    symmetry. etransitivity; [apply mat_meq|].
+    apply bordered_inv_staged_eq; [exact HQm|exact HPm]. }
   unfold finv. split; [exact HB|].
   apply (solve_unique (n + m) 1 A _ _ _ HB).
   transitivity (mmul (n + m) (bordered n (sub 0 0 A) Ut U Sf)
                   (fant_mean_cache n m U Qm Cinv alpha (sub n 0 r))).
-  { apply mmul_compat; [symmetry; exact HAblk|apply mat_meq]. }
+  { apply mmul_compat; [symmetry; exact HAblk|].
+    etransitivity; [apply mat_meq|]. etransitivity; [apply fant_mean_cache_staged_eq|].
+    unfold fant_mean_cache, fant_upper, fant_lower, small_rhs. apply vstack_compat.
+    - apply msub_compat; [reflexivity|]. apply mmul_compat_r. apply mmul_compat_r.
+      apply msub_compat; [reflexivity|]. apply mmul_compat_l. exact HU.
+    - apply mmul_compat_r. apply msub_compat; [reflexivity|]. apply mmul_compat_l. exact HU. }
   transitivity (vstack n (sub 0 0 r) (sub n 0 r)); [|symmetry; apply vstack_of_subs].
   apply fantasy_mean_cache_solves.
   - apply (solve_unique n 1 A Ainv _ _ HA). exact Hal.
